@@ -74,6 +74,22 @@ theorem Near.coarsen {x y m ε : ℚ} (h : Near x y (m * 2 ^ j) ε) : Near x y m
   refine ⟨q * 2 ^ j, e, ?_, b⟩
   rw [a]; push_cast; ring
 
+/-- divide a relation known at the scale `2^k` -/
+theorem Near.div_pow {x y m ε : ℚ} {k : ℕ} (h : Near (x * 2 ^ k) y (m * 2 ^ k) (ε * 2 ^ k)) :
+    Near x (y / 2 ^ k) m ε := by
+  obtain ⟨q, e, a, b⟩ := h
+  have hk : (0 : ℚ) < 2 ^ k := by positivity
+  refine ⟨q, e / 2 ^ k, ?_, ?_⟩
+  · have : x = (x * 2 ^ k) / 2 ^ k := by field_simp
+    rw [this, a]; field_simp
+  · rw [abs_div, abs_of_pos hk, div_le_iff₀ hk]; exact b
+
+/-- a relation modulo `2^β` holds modulo `2^β'` for `β' ≤ β` -/
+theorem Near.coarsen_le {x y ε : ℚ} {β β' : ℕ} (h : Near x y (2 ^ β) ε) (hle : β' ≤ β) : Near x y (2 ^ β') ε := by
+  obtain ⟨j, rfl⟩ : ∃ j, β = β' + j := ⟨β - β', by omega⟩
+  rw [pow_add] at h
+  exact h.coarsen
+
 theorem two_pow_pos (n : ℕ) : (0 : ℚ) < 2 ^ n := by positivity
 
 /-! ## from the integer congruences of C02 to decoded values -/
